@@ -339,3 +339,27 @@ Qed.
 Theorem blocked_search_told_to_stop : forall g tr s, run g init tr s ->
   uci_blocked s = true -> search s = true -> epc s = ESearch -> stopreq s = true.
 Proof. intros; eapply sinv_stopreq; eauto. Qed.
+
+(* ---------------------------------------------------------------------------------- *)
+(** * Combined statements used by Properties_C05.v *)
+Theorem readyok_contract : forall g tr s, run g init tr s ->
+  count is_isready tr = count is_readyok tr + readyok_due s /\ readyok_due s <= 1 /\
+  (awaiting_input s = true -> count is_isready tr = count is_readyok tr) /\
+  (udone s = true -> count is_isready tr = count is_readyok tr).
+Proof.
+  intros g tr s R. pose proof (one_readyok_per_isready g tr s R) as H. repeat split.
+  - exact H.
+  - apply readyok_due_le1.
+  - intro A. rewrite (readyok_due_idle s A) in H. lia.
+  - intro A. destruct (sinv_udone g tr s R A) as [_ [B _]]. lia.
+Qed.
+
+Theorem options_contract : forall g tr s, run g init tr s ->
+  (forall s', Step g s LApply s' -> in_search (epc s) = false /\ (exists a, epc s = EApply a) /\ upc s' = upc s) /\
+  (forall a r, upc s = a :: r -> reads_options a = true ->
+     pending s = false /\ finished s = true /\ (forall b, epc s <> EApply b)).
+Proof.
+  intros g tr s R. split.
+  - intros s' ST. eapply apply_only_when_idle; eauto.
+  - intros a r U A. eapply options_stable_when_read; eauto.
+Qed.
